@@ -114,11 +114,13 @@ CLAIMED = {
          "theorems for ALL translation tables, manual-edge sets and function addresses. Structure: the assembled function is well formed "
          "(no edge or entry names a missing block), its entry is the graph inserted for the function address, every instruction address "
          "is inserted exactly once, the work list is closed under successors and manual edges, assemble never panics after discover. "
-         "Semantics (asm_refines, translate_function_refines, asm_refines_stuck, merge_preserves_executions): under the decidable "
+         "Semantics (asm_refines, translate_function_refines, asm_refines_stuck, merge_preserves_executions, 15 theorems in all): under the decidable "
          "Coherent hypothesis on the table (one instruction graph per address whichever window it was lifted in, ...), for every state and "
          "every length, finite runs of the one-instruction-at-a-time reference and FRun executions of the recovered function (the IL "
          "semantics C07 ties to the executor) correspond in both directions through a state-preserving map, through the final merge, "
-         "wherever windows end and whichever blocks branches target. The mirror is compared by exact FIL equality with the function falcon "
+         "wherever windows end and whichever blocks branches target; asm_refines_merged_partial extends this to tables in which two "
+         "transfers between the same instructions carry different guards (merged into one disjunctive edge since fix fed1e64), for runs "
+         "whose states type every guard as a bit. The mirror is compared by exact FIL equality with the function falcon "
          "returns and the coherence hypothesis is evaluated on every case. (2) Per program, the recovered function is executed by "
          "falcon's executor and compared - address trace, final registers, memory, next pc - with the single-step reference recomputed in "
          "Lean from the dumped IL and with an independent byte-level reference machine.",
@@ -252,8 +254,9 @@ CLAIMED = {
     technique="Lean 4 mirror of the lifter + class theorems over all words, addresses and states; executable differential"),
  "C01": dict(
     category="proof",
-    text="42 Lean theorems. Instruction level (64-bit mode): for mov/add/sub/cmp/and/or/xor in all five operand forms (r,r / r,imm / "
-         "r,[mem] / [mem],r / [mem],imm), lea, inc/dec/neg/not and setcc r8 - all registers and operand sizes including high-byte registers "
+    text="51 Lean theorems. Instruction level (64-bit mode): for mov/add/sub/cmp/and/or/xor in all five operand forms (r,r / r,imm / "
+         "r,[mem] / [mem],r / [mem],imm), lea, inc/dec/neg/not, setcc r8, cmovcc r,r and jcc rel (14 flag-only condition codes; the "
+         "not-taken 32-bit cmov still zero-extends), test r,r / r,imm, xchg r,r, movzx/movsx/movsxd r,r, push r64 and pop r64 - all registers and operand sizes including high-byte registers "
          "(aliasing included), any base/index/scale/displacement, all addresses and every state with a mapped, non-wrapping access - "
          "running the IL of a Lean mirror of the lifter (including mode.rs operand_value/load/store; compared syntactically with falcon's "
          "real output on every generated case of these classes) yields all sixteen registers, CF ZF SF OF, memory and next pc of a Lean "
@@ -274,8 +277,9 @@ CLAIMED = {
     category="proof",
     text="MIPS (mips/mipsel) and 32-bit PowerPC: for every register/immediate field and every machine state, the IL falcon emits for the "
          "proved classes computes exactly the registers, memory and next pc of a Lean interpreter decoding the raw word (theorems "
-         "lift_correct_single, lift_correct_pair, ppc_lift_correct over full Lean mirrors of the lifters). MIPS: integer ALU, shifts, "
-         "immediates, lui, slt*, movn/movz, HI/LO moves, mult/multu, byte/half/word loads and stores, the six conditional branches plus "
+         "lift_correct_single, lift_correct_pair, lift_overflow_stops, ppc_lift_correct over full Lean mirrors of the lifters; 10 theorems). "
+         "MIPS: integer ALU incl. the trapping add/addi/sub (overflow decision for all operand values), shifts, immediates, lui, slt*, "
+         "movn/movz, HI/LO moves, mult/multu/mul, byte/half/word loads and stores, lwl/lwr in both byte orders, the six conditional branches plus "
          "b/j with any such instruction in the delay slot. PowerPC: every lifted mnemonic but bdnzl and conditional bclr, including "
          "addze/srawi carry, record forms, rlwinm masks, update forms and stmw's exact word count. falcon's emitted IL is compared "
          "syntactically with the proved mirror on every generated word. Remaining classes: three-way differential (falcon executor / Lean "
